@@ -86,6 +86,14 @@ def Teardown {β : Type} (before : View) (src : Nat) (o : Obs β) : Prop :=
   before.isBridged src = true →
     whenSome (before.partnerOf src) fun p => p ∈ o.closed
 
+/-- "without loss", at the moment a bridge comes into being: what the partner receives after the relay's own
+    announcement line is exactly the tail — from the connector's identity on — of the bytes the connector had
+    sent and the relay had not yet consumed: a suffix of `pending`, at least one identity long. -/
+def BridgeHandover (identityBytes : Nat) (pending afterAnnouncement : List UInt8) : Prop :=
+  identityBytes ≤ afterAnnouncement.length ∧ afterAnnouncement.isSuffixOf pending = true
+
+instance (n : Nat) (p a : List UInt8) : Decidable (BridgeHandover n p a) := by unfold BridgeHandover; exact inferInstance
+
 instance {β : Type} [DecidableEq β] (v : View) (s : Nat) (d : Option β) (o : Obs β) : Decidable (Delivery v s d o) := by
   unfold Delivery; exact inferInstance
 instance {β : Type} (v w : View) (s : Nat) (o : Obs β) : Decidable (Isolation v w s o) := by
